@@ -139,6 +139,8 @@ def run(ctx):
             oj, oy = a.docs[0].get("obs") or {}, b.docs[0].get("obs") or {}
             differs = oj.get("v") != oy.get("v") or json.dumps(canon(oj.get("dump")), sort_keys=True) != json.dumps(canon(oy.get("dump")), sort_keys=True)
             ctx.known(f, differs, "json %s yaml %s" % (oj.get("v"), oy.get("v")))
+    from vlib import regress
+    regress.wide_yaml(ctx)          # the shape-agnostic search step (DESIGN.md 12.8)
     ctx.cov["rule"] = ("programs generated with --extra-imports from the systematic families of C04/C05/C06/C08/C09 (thinned) and random in-guard schemas (no formats, no numeric "
                        "members in untyped enums); every valid document and every single required/bound/length/pattern/string-enum fault decoded from the same bytes through "
                        "json.Unmarshal and yaml.Unmarshal; observables: verdict and the structural dump of the decoded value; non-trivial = every document; distinct by hash")
